@@ -210,10 +210,35 @@ def the_macro():
     ])
 
 
+REGULAR_CASE_HEADERS = [f for f in CASE_HEADERS if f(0).kind in ("val", "op")]
+MENU_CASE_HEADERS = [f for f in CASE_HEADERS if f(0).kind in ("menu", "menu2")]
+MENU_SWITCH = lambda k: A.SwitchHeader("opcall", "message_SwitchMenu", (("i", k), ("i", 1)))  # noqa: E731
+
+
 class Instantiator:
-    def __init__(self, seed=0):
+    def __init__(self, seed=0, compatible_cases=False):
+        """compatible_cases: pair menu/menu2 case headers only with message_SwitchMenu headers (what the
+        specification ties them to, and what the decompiler's case table knows)."""
         self.seed = seed
+        self.compatible_cases = compatible_cases
         self.reset()
+
+    def switch_header(self):
+        k = self.n_sw
+        self.n_sw += 1
+        if self.compatible_cases and (self.seed + k) % (len(SWITCH_HEADERS) + 1) == len(SWITCH_HEADERS):
+            self.menu_switch = True
+            return MENU_SWITCH(k)
+        self.menu_switch = False
+        return SWITCH_HEADERS[(self.seed + k) % len(SWITCH_HEADERS)](k)
+
+    def case_header(self):
+        c = self.n_case
+        self.n_case += 1
+        if not self.compatible_cases:
+            return CASE_HEADERS[(self.seed + c) % len(CASE_HEADERS)](c)
+        table = MENU_CASE_HEADERS if self.menu_switch else REGULAR_CASE_HEADERS
+        return table[(self.seed + c) % len(table)](c)
 
     def reset(self):
         self.n_op = 0
@@ -223,6 +248,7 @@ class Instantiator:
         self.n_assign = 0
         self.n_ctx = 0
         self.uses_macro = False
+        self.menu_switch = False
 
     def op(self, prefix="op"):
         self.n_op += 1
@@ -286,17 +312,16 @@ class Instantiator:
             eb = None if s[2] is None else self.body(s[2])
             return A.If(branches, eb)
         if kind == "switch":
-            k = self.n_sw
-            self.n_sw += 1
-            header = SWITCH_HEADERS[(self.seed + k) % len(SWITCH_HEADERS)](k)
+            header = self.switch_header()
+            menu = self.menu_switch
             items = []
             for i, b in enumerate(s[2]):
+                self.menu_switch = menu
                 if s[1] == i:
                     items.append(A.SwitchItem(None, self.body(b)))
                 else:
-                    c = self.n_case
-                    self.n_case += 1
-                    items.append(A.SwitchItem(CASE_HEADERS[(self.seed + c) % len(CASE_HEADERS)](c), self.body(b)))
+                    h = self.case_header()
+                    items.append(A.SwitchItem(h, self.body(b)))
             return A.Switch(header, items)
         if kind == "forever":
             return A.Forever(self.body(s[1]))
